@@ -37,8 +37,8 @@ TraceDist ==
   /\ LET e == Trace[l] IN
        /\ ev' = e
        /\ rew0' = rew /\ sprew0' = sprew
-       /\ rew' = AddPairs(rew, e.inc, 1)
-       /\ sprew' = sprew + e.sp_inc
+       /\ rew' = PutPairs(rew, e.post, 1)            \* (values are capped at 2^29 by the recorder)
+       /\ sprew' = e.sp_post
 
 TraceSkip ==
   /\ l <= Len(Trace) /\ Trace[l].ev \notin {"Reset", "Dist"}
@@ -59,17 +59,22 @@ IncOf(e) == [d \in Names(e.pools) |-> PairOf(e.inc, d, 0)]
 \* a call that returned an error aborts the transaction that made it: the property speaks of payments made
 Judged == IsDist /\ ~ev.err /\ ~ev.panic
 PaidEv == ~ev.v_zero /\ ~ev.killed /\ ~ev.under
+\* vcheck marks the events that match the signature of a recorded known finding (known_findings.jsonl);
+\* the invariants a finding is about skip exactly those events
+Known == "known" \in DOMAIN ev /\ ev.known
 
 \* harness sanity (exit 2): nothing touches the rewards between two calls; the recorder's own
 \* classification agrees with the model's on every event TLC can recompute
 HarnessContinuity ==
-  (IsDist /\ ~ev.big) => /\ \A i \in 1..Len(ev.pre) : ev.pre[i].d = Get(rew0, ev.pre[i].a, 0)
-                          /\ ev.sp_pre = sprew0
+  IsDist => /\ \A i \in 1..Len(ev.pre) : ev.pre[i].d = Get(rew0, ev.pre[i].a, 0)
+            /\ ev.sp_pre = sprew0
 HarnessFlags ==
   (IsDist /\ ~ev.big) => /\ ev.under = (TotalStake(SPof(ev)) < ev.min_stake)
                           /\ ev.v_zero = (ev.v = 0)
                           /\ ev.n_pools = Cardinality(Names(ev.pools))
                           /\ ev.sum_diff = ev.sp_inc + SumPairs(ev.inc, 1) - ev.v
+                          /\ \A i \in 1..Len(ev.inc) : PairOf(ev.post, ev.inc[i].a, 0) = PairOf(ev.pre, ev.inc[i].a, 0) + ev.inc[i].d
+                          /\ ev.sp_post = ev.sp_pre + ev.sp_inc
 
 \* the deferred exactness assertion of DistributeRewards (or anything else) panicked
 C10_NoPanic == IsDist => ~ev.panic
@@ -77,7 +82,7 @@ C10_NoPanic == IsDist => ~ev.panic
 \* values beyond TLC's 32-bit integers ("big"): the sums and cross-multiplications are evaluated by the
 \* recorder with big integers, TLC checks the resulting differences against the same bounds
 C10_ExactSum ==
-  Judged => IF ev.big
+  (Judged /\ ~Known) => IF ev.big
               THEN (IF PaidEv THEN ev.sum_diff = 0 ELSE ev.all_zero)
               ELSE OblExactSum(SPof(ev), ev.v, ev.sp_inc, IncOf(ev))
 C10_Charge ==
@@ -89,7 +94,7 @@ C10_Subset ==
               THEN (ev.kind = "randn" => ev.n_credited <= ev.n)
               ELSE OblSubset(SPof(ev), ev.kind, ev.n, IncOf(ev))
 C10_Proportional ==
-  Judged => IF ev.big
+  (Judged /\ ~Known) => IF ev.big
               THEN ((PaidEv /\ ev.n_pools > 0) => ev.prop_dev <= PropTol + ev.tol_hi)
               ELSE OblProportional(SPof(ev), ev.v, ev.kind, ev.n, ev.sp_inc, IncOf(ev))
 =============================================================================
